@@ -5,8 +5,11 @@ package c18
 import (
 	"fmt"
 	"math"
+	"os"
 	"reflect"
+	"strings"
 	"testing"
+	"time"
 
 	mocker "github.com/tencent/goom"
 	"github.com/tencent/goom/arg"
@@ -106,6 +109,17 @@ func domains() []domain {
 	}
 	add("float64", float64(0), func(r *vmon.Rng) interface{} { return fl(r) })
 	add("float32", float32(0), func(r *vmon.Rng) interface{} { return float32(fl(r)) })
+	// named numeric types with String/Format methods (enums, bit sets, durations): equality is about the number
+	add("enum with String()", Level(0), func(r *vmon.Rng) interface{} { return Level(r.Intn(7)) })
+	add("os.FileMode", os.FileMode(0), func(r *vmon.Rng) interface{} {
+		return pick(r, os.FileMode(0644), os.FileMode(0644|1<<10), os.FileMode(0644|1<<9), os.FileMode(0755), os.ModeDir|0755, os.FileMode(0))
+	})
+	add("time.Duration", time.Duration(0), func(r *vmon.Rng) interface{} {
+		return pick(r, time.Duration(0), time.Second, 1000*time.Millisecond, time.Minute, time.Duration(1), time.Duration(-1))
+	})
+	add("float with String()", Celsius(0), func(r *vmon.Rng) interface{} {
+		return pick(r, Celsius(20.04), Celsius(20.01), Celsius(20), Celsius(-3.5))
+	})
 	add("string", "", func(r *vmon.Rng) interface{} {
 		// among them different spellings of one number: strings are compared as strings
 		return pick(r, "", "a", "b", "5", "5.0", "05", "+5", "5e0", "true", "0x10", "16", " ", "a\x00", "é", "long string value ............................................. x",
@@ -243,6 +257,24 @@ func show(v interface{}) string {
 	return fmt.Sprintf("%#v", v)
 }
 
+// Level prints the same text for every value it has no name for.
+type Level int
+
+func (l Level) String() string {
+	switch l {
+	case 0:
+		return "low"
+	case 1:
+		return "high"
+	}
+	return "unknown"
+}
+
+// Celsius prints rounded.
+type Celsius float64
+
+func (c Celsius) String() string { return fmt.Sprintf("%.1f°C", float64(c)) }
+
 var sliceBase = []int{1, 2, 3, 4}
 
 var structSliceBase = make([]struct{}, 5)
@@ -283,6 +315,9 @@ func TestC18(t *testing.T) {
 		key := func(k string) string {
 			if d.isFunc && x == nil && !asIface {
 				return "C18/nil-func-pattern"
+			}
+			if strings.Contains(d.name, "String()") || d.name == "os.FileMode" || d.name == "time.Duration" {
+				return "C18/named-number-compared-by-its-text"
 			}
 			return k
 		}
